@@ -2618,7 +2618,10 @@ class TLSConnection(TLSRecordLayer):
         # send a new ticket in a NewSessionTicket message
         send_session_ticket = False
         session_ticket = clientHello.getExtension(ExtensionType.session_ticket)
-        enable_ticket = settings.ticket_count > 0 and settings.ticketKeys
+        # (a ticket has no field for the SRP user name, so a session rebuilt
+        # from one could never match the identity a resuming client sends)
+        enable_ticket = settings.ticket_count > 0 and settings.ticketKeys \
+            and cipherSuite not in CipherSuite.srpAllSuites
         if session_ticket and len(session_ticket.ticket) == 0 \
                 and enable_ticket:
             send_session_ticket = True
